@@ -379,7 +379,12 @@ def main(argv=None) -> int:
     if a.replay:
         with open(a.replay) as f:
             body = json.load(f)
-        bad, text = replay_native(body["module"], body["fn"], body["shape"], body["args"], body.get("kwargs", {}))
+        if str(body["fn"]).startswith("e2:"):
+            m = importlib.import_module(body["module"])
+            rep = m.e2_replay(body["fn"][3:], body["args"][0])
+            bad, text = bool(rep), str(rep)
+        else:
+            bad, text = replay_native(body["module"], body["fn"], body["shape"], body["args"], body.get("kwargs", {}))
         print("replay:", "VIOLATED" if bad else "holds", text)
         if bad:
             print("VIOLATION property=%s replay=%s" % (pid, a.replay))
